@@ -22,6 +22,7 @@ func runC17(c *Ctx) {
 	_, s := c.Std()
 
 	ruleErrPassthrough(c)
+	ruleNoSMTPErrorMutation(c)
 
 	ruleEnhDefault(c)
 
@@ -263,4 +264,28 @@ func ruleEnhDefault(c *Ctx) {
 		R.Ob("(*Conn).writeResponse/class = code/100", c.P.Pos(f.Pos()), hasDiv, "class not derived as code/100")
 		R.Ob("(*Conn).writeResponse/defaults for classes 2,4,5", c.P.Pos(f.Pos()), len(consts) == 3 && consts[2] && consts[4] && consts[5], fmt.Sprintf("defaulting classes %v", consts))
 	}
+}
+
+// ruleNoSMTPErrorMutation (C13, C17): an *SMTPError that comes from the backend (a status, a callback result) is
+// shared — the same pointer can stand for several recipients or be reused across messages. The library only ever
+// writes the fields of SMTPError values it has just allocated itself.
+func ruleNoSMTPErrorMutation(c *Ctx) {
+	R := c.R
+	R.Rule("R-smtperror-not-mutated", "E4 ownership", "fields of an SMTPError are stored only into objects allocated by the storing function itself (composite literals, toSMTPErr's result): errors handed in by the backend are never modified", 1)
+	n := 0
+	for _, f := range c.P.AllFuncs() {
+		if !inSmtp(f) {
+			continue
+		}
+		allInstrs(f, func(in ssa.Instruction) {
+			fld, base, _ := storedField(in)
+			if fld == nil || typeShort(base.Type()) != "*SMTPError" {
+				return
+			}
+			n++
+			_, fresh := stripConv(base).(*ssa.Alloc)
+			R.Ob(c.siteKey(in, "SMTPError."+fld.Name()+" written into a fresh object"), c.P.InstrPos(in), fresh, "SMTPError."+fld.Name()+" is written through "+describe(base)+", which the function did not allocate: a backend error shared by several recipients (or reused across messages) is modified in place")
+		})
+	}
+	R.Ob("SMTPError/field stores found", "-", n >= 3, fmt.Sprintf("%d stores", n))
 }
